@@ -588,4 +588,5 @@ func RunC11(c *Ctx) {
 	_ = rand.IntN
 	c11LongLists(c, idx)
 	c11SemicolonEverywhere(c, 0)
+	c11Pairs(c)
 }
